@@ -117,12 +117,14 @@ def part_a(case: dict, g: dict, rng) -> tuple[list[dict], dict, bool]:  # noqa: 
         if pi == 1:
             m2.update_parameters({p: round(rng.uniform(0.3, 2.0), 3) for p in base if p not in ("nh", "tot")})
         pvals = {k: float(v) for k, v in m2.get_args().items() if k in m2.get_parameter_names()}
-        for i_st in range(5):
+        for i_st in range(6):
             st = {v: round(rng.uniform(0.3, 2.5), 3) for v in names}
             lattice = i_st >= 3
             if lattice:
                 # lattice states: equality tests between quantities hold here; equations only (no derivative exists there)
                 st = {v: rng.choice([0.5, 1.0, 1.5, 2.0]) for v in names}
+            if i_st == 5 and "equality_gate" in feats:
+                st = {v: 1.0 for v in names}  # every `x == y` and `x != 1.0` between variables is decided by equality here
             t = round(rng.uniform(0.0, 3.0), 2)
             num = list(m2(t, [st[v] for v in names]))
             got, err = eval_sym(sm.eqs, sm, pvals | st, t)
